@@ -251,6 +251,305 @@ Proof.
   apply (encode_prefix_free s v1 v2 [] [] H1 H2). now rewrite E.
 Qed.
 
+(* ------------------------------------------------------------------ the decoder accepts only encodings *)
+Definition optP {A} (P : A -> Prop) (o : option A) : Prop := match o with Some a => P a | None => True end.
+
+Section shape_induction.
+  Variable P : shape -> Prop.
+  Hypothesis HBool : P SBool.
+  Hypothesis HInt : forall k, P (SInt k).
+  Hypothesis HF32 : P SF32.
+  Hypothesis HF64 : P SF64.
+  Hypothesis HStr : P SStr.
+  Hypothesis HUnit : P SUnit.
+  Hypothesis HOpt : forall os, optP P os -> P (SOpt os).
+  Hypothesis HSeq : forall os, optP P os -> P (SSeq os).
+  Hypothesis HMap : forall okv, optP (fun kv : shape * shape => P (fst kv) /\ P (snd kv)) okv -> P (SMap okv).
+  Hypothesis HTuple : forall l, Forall P l -> P (STuple l).
+  Hypothesis HStruct : forall k n fs, Forall (fun f => P (snd f)) fs -> P (SStruct k n fs).
+  Hypothesis HEnum : forall n vs,
+    Forall (optP (fun t : string * skind * list (string * shape) => Forall (fun f => P (snd f)) (snd t))) vs ->
+    P (SEnum n vs).
+
+  Fixpoint shape_ind' (s : shape) : P s :=
+    let fields := fix go (l : list (string * shape)) : Forall (fun f => P (snd f)) l :=
+                    match l with [] => Forall_nil _ | x :: r => Forall_cons _ (shape_ind' (snd x)) (go r) end in
+    match s with
+    | SBool => HBool | SInt k => HInt k | SF32 => HF32 | SF64 => HF64 | SStr => HStr | SUnit => HUnit
+    | SOpt os => HOpt os (match os as o return optP P o with Some s' => shape_ind' s' | None => I end)
+    | SSeq os => HSeq os (match os as o return optP P o with Some s' => shape_ind' s' | None => I end)
+    | SMap okv => HMap okv (match okv as o return optP (fun kv : shape * shape => P (fst kv) /\ P (snd kv)) o with
+                            | Some kv => conj (shape_ind' (fst kv)) (shape_ind' (snd kv))
+                            | None => I
+                            end)
+    | STuple l => HTuple l ((fix go (l : list shape) : Forall P l :=
+                               match l with [] => Forall_nil _ | x :: r => Forall_cons _ (shape_ind' x) (go r) end) l)
+    | SStruct k n fs => HStruct k n fs (fields fs)
+    | SEnum n vs =>
+        HEnum n vs ((fix go (l : list (option (string * skind * list (string * shape)))) :
+                       Forall (optP (fun t : string * skind * list (string * shape) => Forall (fun f => P (snd f)) (snd t))) l :=
+                       match l with
+                       | [] => Forall_nil _
+                       | x :: r => Forall_cons _
+                                     (match x as o return optP (fun t : string * skind * list (string * shape) => Forall (fun f => P (snd f)) (snd t)) o with
+                                      | Some t => fields (snd t)
+                                      | None => I
+                                      end) (go r)
+                       end) vs)
+    end.
+End shape_induction.
+
+
+Lemma take_spec : forall n bs a r, take n bs = Some (a, r) -> bs = a ++ r /\ List.length a = n.
+Proof.
+  induction n as [|n IH]; intros bs a r H; simpl in H.
+  - injection H as <- <-. split; reflexivity.
+  - destruct bs as [|b bs]; [discriminate |].
+    destruct (take n bs) as [[a' r']|] eqn:E; [| discriminate].
+    injection H as <- <-. destruct (IH _ _ _ E) as [-> <-]. split; reflexivity.
+Qed.
+
+Lemma le_unle : forall a, bytes_ok a -> le (List.length a) (unle a) = a.
+Proof.
+  induction a as [|b a IH]; intro H; [reflexivity |].
+  inversion H as [|? ? Hb Ha]; subst. cbn [List.length le unle].
+  replace ((b + 256 * unle a) mod 256) with b.
+  - replace ((b + 256 * unle a) / 256) with (unle a); [now rewrite IH |].
+    rewrite N.mul_comm. rewrite N.div_add by discriminate. rewrite N.div_small by exact Hb. reflexivity.
+  - rewrite N.mul_comm. rewrite N.mod_add by discriminate. now rewrite N.mod_small.
+Qed.
+
+Lemma unle_lt : forall a, bytes_ok a -> unle a < modulus (List.length a).
+Proof.
+  induction a as [|b a IH]; intro H.
+  - unfold modulus. simpl. lia.
+  - inversion H as [|? ? Hb Ha]; subst. cbn [List.length unle]. rewrite modulus_S. specialize (IH Ha). lia.
+Qed.
+
+Lemma bytes_ok_app : forall a b, bytes_ok (a ++ b) -> bytes_ok a /\ bytes_ok b.
+Proof. intros a b H. now apply Forall_app in H. Qed.
+
+Lemma dec_le_spec : forall n bs u r, bytes_ok bs -> dec_le n bs = Some (u, r) ->
+  bs = le n u ++ r /\ u < modulus n /\ bytes_ok r.
+Proof.
+  intros n bs u r Hok H. unfold dec_le in H.
+  destruct (take n bs) as [[a r']|] eqn:E; [| discriminate]. injection H as <- <-.
+  destruct (take_spec _ _ _ _ E) as [-> <-]. destruct (bytes_ok_app _ _ Hok) as [Ha Hr].
+  rewrite (le_unle a Ha). repeat split; [now apply unle_lt | exact Hr].
+Qed.
+
+Lemma unsigned_roundtrip : forall k u, u < modulus (width k) ->
+  to_unsigned k (of_unsigned k u) = u /\ in_range k (of_unsigned k u) = true.
+Proof.
+  intros k u Hu. unfold to_unsigned, of_unsigned, in_range.
+  pose proof (modulus_pos (width k)) as Hp. set (m := modulus (width k)) in *.
+  assert (Heven : (Z.of_N m = 2 * (Z.of_N m / 2))%Z) by (unfold m, modulus; destruct k; reflexivity).
+  assert (Hhalf : Z.of_N (m / 2) = (Z.of_N m / 2)%Z) by (rewrite N2Z.inj_div; reflexivity).
+  destruct (is_signed k); simpl.
+  - destruct (m / 2 <=? u) eqn:E.
+    + apply N.leb_le in E. split.
+      * replace ((Z.of_N u - Z.of_N m) mod Z.of_N m)%Z with (Z.of_N u).
+        { now rewrite N2Z.id. }
+        apply Z.mod_unique with (q := (-1)%Z); lia.
+      * apply andb_true_intro. split; [apply Z.leb_le | apply Z.ltb_lt]; lia.
+    + apply N.leb_gt in E. split.
+      * rewrite Z.mod_small by lia. now rewrite N2Z.id.
+      * apply andb_true_intro. split; [apply Z.leb_le | apply Z.ltb_lt]; lia.
+  - split.
+    + rewrite Z.mod_small by lia. now rewrite N2Z.id.
+    + apply andb_true_intro. split; [apply Z.leb_le | apply Z.ltb_lt]; lia.
+Qed.
+
+Lemma str_bytes_str : forall a, bytes_ok a -> str_bytes (bytes_str a) = a.
+Proof.
+  intros a H. unfold str_bytes, bytes_str. rewrite list_ascii_of_string_of_list_ascii. rewrite map_map.
+  induction H as [|b a Hb Ha IH]; [reflexivity |]. simpl. rewrite IH. f_equal.
+  apply N_ascii_embedding. exact Hb.
+Qed.
+
+(** what a decoder of items must satisfy *)
+Definition item_spec {A} (enc : A -> list N) (Q : A -> Prop) (f : list N -> option (A * list N)) : Prop :=
+  forall bs a r, bytes_ok bs -> f bs = Some (a, r) -> bs = enc a ++ r /\ Q a /\ bytes_ok r.
+
+Lemma rep_spec : forall {A} (enc : A -> list N) (Q : A -> Prop) f, item_spec enc Q f ->
+  forall n bs l r, bytes_ok bs -> rep f n bs = Some (l, r) ->
+  bs = flat_map enc l ++ r /\ Forall Q l /\ List.length l = n /\ bytes_ok r.
+Proof.
+  intros A enc Q f Hf. induction n as [|n IH]; intros bs l r Hok H; simpl in H.
+  - injection H as <- <-. repeat split; [constructor | exact Hok].
+  - destruct (f bs) as [[a r1]|] eqn:E1; [| discriminate].
+    destruct (Hf _ _ _ Hok E1) as [-> [Ha Hr1]].
+    destruct (rep f n r1) as [[l' r2]|] eqn:E2; [| discriminate]. injection H as <- <-.
+    destruct (IH _ _ _ Hr1 E2) as [-> [Hl [Hn Hr2]]].
+    simpl. rewrite <- app_assoc. repeat split; [now constructor | now rewrite Hn | exact Hr2].
+Qed.
+
+Lemma dec_seq_spec : forall {A B} (enc : B -> list N) (ok : B -> A -> bool) (dec : A -> list N -> option (B * list N)) (ss : list A),
+  Forall (fun s => forall bs b r, bytes_ok bs -> dec s bs = Some (b, r) -> bs = enc b ++ r /\ ok b s = true /\ bytes_ok r) ss ->
+  forall bs l r, bytes_ok bs -> dec_seq dec ss bs = Some (l, r) ->
+  bs = flat_map enc l ++ r /\ forall2b ok l ss = true /\ bytes_ok r.
+Proof.
+  intros A B enc ok dec ss H. induction H as [|s ss Hs Hss IH]; intros bs l r Hok E; simpl in E.
+  - injection E as <- <-. repeat split. exact Hok.
+  - destruct (dec s bs) as [[b r1]|] eqn:E1; [| discriminate].
+    destruct (Hs _ _ _ Hok E1) as [-> [Hb Hr1]].
+    destruct (dec_seq dec ss r1) as [[l' r2]|] eqn:E2; [| discriminate]. injection E as <- <-.
+    destruct (IH _ _ _ Hr1 E2) as [-> [Hl Hr2]].
+    simpl. rewrite <- app_assoc. rewrite Hb, Hl. repeat split. exact Hr2.
+Qed.
+
+Definition sound_at (s : shape) : Prop :=
+  forall bs v rest, bytes_ok bs -> decode s bs = Some (v, rest) ->
+  bs = encode v ++ rest /\ has_shape v s = true /\ bytes_ok rest.
+
+Lemma fields_sound : forall (fs : list (string * shape)),
+  Forall (fun f => sound_at (snd f)) fs ->
+  forall bs l r, bytes_ok bs -> dec_seq (dec_field decode) fs bs = Some (l, r) ->
+  bs = flat_map (fun f : string * value => encode (snd f)) l ++ r
+  /\ forall2b (field_shape has_shape) l fs = true /\ bytes_ok r.
+Proof.
+  intros fs H. apply (dec_seq_spec (fun f : string * value => encode (snd f)) (field_shape has_shape)).
+  eapply Forall_impl; [| exact H]. intros [n s] Hs bs [n' v] r Hok E. unfold dec_field in E. simpl in *.
+  destruct (decode s bs) as [[v' r']|] eqn:E1; [| discriminate]. injection E as <- <- <-.
+  destruct (Hs _ _ _ Hok E1) as [-> [Hv Hr]]. unfold field_shape. simpl.
+  rewrite String.eqb_refl, Hv. repeat split. exact Hr.
+Qed.
+
+Lemma byte_cases : forall b : N, (b =? 0) = false -> (b =? 1) = true -> b = 1.
+Proof. intros b _ H. now apply N.eqb_eq in H. Qed.
+
+Lemma decode_sound_all : forall s, sound_at s.
+Proof.
+  induction s as [ |k| | | | |os IH|os IH|okv IH|ss IH|k n fs IH|n vs IH] using shape_ind';
+    intros bs v rest Hok E; cbn [decode] in E.
+  - (* bool *)
+    destruct bs as [|b r]; [discriminate |]. inversion Hok as [|? ? Hb Hr]; subst.
+    destruct (b =? 0) eqn:E0; [apply N.eqb_eq in E0; subst b; injection E as <- <-; repeat split; exact Hr |].
+    destruct (b =? 1) eqn:E1; [| discriminate]. apply N.eqb_eq in E1. subst b. injection E as <- <-. repeat split. exact Hr.
+  - (* int *)
+    destruct (dec_le (width k) bs) as [[u r]|] eqn:E1; [| discriminate]. injection E as <- <-.
+    destruct (dec_le_spec _ _ _ _ Hok E1) as [-> [Hu Hr]].
+    destruct (unsigned_roundtrip k u Hu) as [H1 H2]. cbn [encode has_shape]. rewrite H1, H2.
+    repeat split; [destruct k; reflexivity | exact Hr].
+  - destruct (dec_le 4 bs) as [[u r]|] eqn:E1; [| discriminate]. injection E as <- <-.
+    destruct (dec_le_spec _ _ _ _ Hok E1) as [-> [Hu Hr]]. cbn [encode has_shape].
+    repeat split; [now apply N.ltb_lt | exact Hr].
+  - destruct (dec_le 8 bs) as [[u r]|] eqn:E1; [| discriminate]. injection E as <- <-.
+    destruct (dec_le_spec _ _ _ _ Hok E1) as [-> [Hu Hr]]. cbn [encode has_shape].
+    repeat split; [now apply N.ltb_lt | exact Hr].
+  - (* str *)
+    destruct (dec_le 8 bs) as [[u r]|] eqn:E1; [| discriminate].
+    destruct (dec_le_spec _ _ _ _ Hok E1) as [-> [Hu Hr]].
+    destruct (take (N.to_nat u) r) as [[a r']|] eqn:E2; [| discriminate]. injection E as <- <-.
+    destruct (take_spec _ _ _ _ E2) as [-> Hlen]. destruct (bytes_ok_app _ _ Hr) as [Ha Hr'].
+    assert (Hl : N.of_nat (String.length (bytes_str a)) = u).
+    { rewrite <- str_bytes_length. rewrite (str_bytes_str a Ha). rewrite Hlen. apply N2Nat.id. }
+    cbn [encode has_shape]. rewrite Hl, (str_bytes_str a Ha). rewrite <- app_assoc.
+    repeat split; [now apply N.ltb_lt | exact Hr'].
+  - (* unit *) injection E as <- <-. repeat split. exact Hok.
+  - (* option *)
+    destruct bs as [|b r]; [discriminate |]. inversion Hok as [|? ? Hb Hr]; subst.
+    destruct (b =? 0) eqn:E0; [apply N.eqb_eq in E0; subst b; injection E as <- <-; repeat split; exact Hr |].
+    destruct (b =? 1) eqn:E1; [| discriminate]. apply N.eqb_eq in E1. subst b.
+    destruct os as [s'|]; [| discriminate].
+    destruct (decode s' r) as [[v' r']|] eqn:E2; [| discriminate]. injection E as <- <-.
+    destruct (IH _ _ _ Hr E2) as [-> [Hv Hr']]. repeat split; [exact Hv | exact Hr'].
+  - (* seq *)
+    destruct (dec_le 8 bs) as [[u r]|] eqn:E1; [| discriminate].
+    destruct (dec_le_spec _ _ _ _ Hok E1) as [-> [Hu Hr]].
+    destruct os as [s'|].
+    + destruct (rep (decode s') (N.to_nat u) r) as [[l r']|] eqn:E2; [| discriminate]. injection E as <- <-.
+      destruct (rep_spec encode (fun v => has_shape v s' = true) (decode s')
+                  (fun bs a r0 Hb Hd => IH bs a r0 Hb Hd) _ _ _ _ Hr E2) as [-> [Hl [Hn Hr']]].
+      cbn [encode has_shape]. rewrite Hn, N2Nat.id. rewrite <- app_assoc.
+      repeat split; [| exact Hr'].
+      apply andb_true_intro. split; [unfold len_ok; rewrite Hn, N2Nat.id; now apply N.ltb_lt |].
+      apply forallb_forall. rewrite Forall_forall in Hl. exact Hl.
+    + destruct (u =? 0) eqn:E0; [| discriminate]. apply N.eqb_eq in E0. subst u. injection E as <- <-.
+      repeat split. exact Hr.
+  - (* map *)
+    destruct (dec_le 8 bs) as [[u r]|] eqn:E1; [| discriminate].
+    destruct (dec_le_spec _ _ _ _ Hok E1) as [-> [Hu Hr]].
+    destruct okv as [[ks vs]|].
+    + simpl in IH. destruct IH as [IHk IHv].
+      match type of E with context [rep ?f _ _] => set (f0 := f) in * end.
+      destruct (rep f0 (N.to_nat u) r) as [[l r']|] eqn:E2; [| discriminate]. injection E as <- <-.
+      assert (Hf : item_spec (fun kv : value * value => encode (fst kv) ++ encode (snd kv))
+                             (fun kv => has_shape (fst kv) ks && has_shape (snd kv) vs = true) f0).
+      { intros b [k v] r0 Hb Hd. unfold f0 in Hd.
+        destruct (decode ks b) as [[k' b']|] eqn:D1; [| discriminate].
+        destruct (IHk _ _ _ Hb D1) as [-> [Hk Hb']].
+        destruct (decode vs b') as [[v' b'']|] eqn:D2; [| discriminate]. injection Hd as <- <- <-.
+        destruct (IHv _ _ _ Hb' D2) as [-> [Hv Hb'']]. simpl. rewrite Hk, Hv, <- app_assoc. repeat split. exact Hb''. }
+      destruct (rep_spec _ _ f0 Hf _ _ _ _ Hr E2) as [-> [Hl [Hn Hr']]].
+      cbn [encode has_shape]. rewrite Hn, N2Nat.id. rewrite <- app_assoc.
+      repeat split; [| exact Hr'].
+      apply andb_true_intro. split; [unfold len_ok; rewrite Hn, N2Nat.id; now apply N.ltb_lt |].
+      apply forallb_forall. rewrite Forall_forall in Hl. exact Hl.
+    + destruct (u =? 0) eqn:E0; [| discriminate]. apply N.eqb_eq in E0. subst u. injection E as <- <-.
+      repeat split. exact Hr.
+  - (* tuple *)
+    destruct (dec_seq decode ss bs) as [[l r]|] eqn:E1; [| discriminate]. injection E as <- <-.
+    destruct (dec_seq_spec encode has_shape decode ss IH _ _ _ Hok E1) as [-> [Hl Hr]].
+    repeat split; [exact Hl | exact Hr].
+  - (* struct *)
+    destruct (dec_seq (dec_field decode) fs bs) as [[l r]|] eqn:E1; [| discriminate]. injection E as <- <-.
+    destruct (fields_sound fs IH _ _ _ Hok E1) as [-> [Hl Hr]].
+    cbn [encode has_shape]. rewrite String.eqb_refl, Hl.
+    repeat split; [destruct k; reflexivity | exact Hr].
+  - (* enum *)
+    destruct (dec_le 4 bs) as [[i r]|] eqn:E1; [| discriminate].
+    destruct (dec_le_spec _ _ _ _ Hok E1) as [-> [Hi Hr]].
+    rewrite pick_nth in E. destruct (nth_N vs i) as [[[[vn k] fs]|]|] eqn:En; try discriminate.
+    destruct (dec_seq (dec_field decode) fs r) as [[l r']|] eqn:E2; [| discriminate]. injection E as <- <-.
+    assert (Hfs : Forall (fun f => sound_at (snd f)) fs).
+    { clear - IH En. revert i En. induction IH as [|ov vs Hov Hvs IHvs]; intros i En; simpl in En; [discriminate |].
+      destruct (i =? 0); [injection En as ->; exact Hov | exact (IHvs _ En)]. }
+    simpl in Hfs.
+    destruct (fields_sound fs Hfs _ _ _ Hr E2) as [-> [Hl Hr']].
+    cbn [encode has_shape]. rewrite String.eqb_refl, En, String.eqb_refl, Hl. rewrite <- app_assoc.
+    repeat split; [| exact Hr'].
+    apply andb_true_intro. split; [apply andb_true_intro; split; [reflexivity | now apply N.ltb_lt] | destruct k; reflexivity].
+Qed.
+
+Lemma le_bytes_ok : forall n x, bytes_ok (le n x).
+Proof.
+  induction n as [|n IH]; intro x; simpl; constructor; [| apply IH].
+  apply N.mod_lt. discriminate.
+Qed.
+Lemma flat_map_bytes_ok : forall {A} (f : A -> list N) l, Forall (fun a => bytes_ok (f a)) l -> bytes_ok (flat_map f l).
+Proof.
+  intros A f l H. induction H as [|a l Ha Hl IH]; simpl; [constructor | apply Forall_app; split; assumption].
+Qed.
+
+Lemma encode_bytes_ok : forall v, bytes_ok (encode v).
+Proof.
+  induction v as [b|k z|b|b|st| | |v IHv|l H|l H|l H|k n fs H|n i vn k fs H] using value_ind'; cbn [encode].
+  - constructor; [destruct b; reflexivity | constructor].
+  - apply le_bytes_ok.
+  - apply le_bytes_ok.
+  - apply le_bytes_ok.
+  - apply Forall_app. split; [apply le_bytes_ok |].
+    unfold str_bytes. apply Forall_forall. intros x Hx. apply in_map_iff in Hx as [a [<- _]]. apply N_ascii_bounded.
+  - constructor.
+  - constructor; [reflexivity | constructor].
+  - constructor; [reflexivity | exact IHv].
+  - apply Forall_app. split; [apply le_bytes_ok | now apply flat_map_bytes_ok].
+  - apply Forall_app. split; [apply le_bytes_ok |]. apply flat_map_bytes_ok.
+    eapply Forall_impl; [| exact H]. intros [a b] [Ha Hb]. apply Forall_app. split; assumption.
+  - now apply flat_map_bytes_ok.
+  - now apply flat_map_bytes_ok.
+  - apply Forall_app. split; [apply le_bytes_ok | now apply flat_map_bytes_ok].
+Qed.
+
+Lemma decode_iff : forall s bs v rest, bytes_ok bs ->
+  (decode s bs = Some (v, rest) <-> bs = encode v ++ rest /\ has_shape v s = true).
+Proof.
+  intros s bs v rest Hok. split.
+  - intro E. destruct (decode_sound_all s bs v rest Hok E) as [A [B _]]. now split.
+  - intros [-> Hs]. now apply decode_encode_all.
+Qed.
+
 (* ------------------------------------------------------------------ equality test of the oracle *)
 Lemma forall2b_eq : forall {A} (eqb : A -> A -> bool) (x : list A),
   Forall (fun a => forall b, eqb a b = true -> a = b) x -> forall y, forall2b eqb x y = true -> x = y.
